@@ -1,5 +1,5 @@
 """Registry: property id -> engine, budgets, manifest texts."""
-from . import e3_entry
+from . import e3_entry, e6_order
 
 
 def _budget(batches, examples, wall_s):
@@ -31,6 +31,39 @@ PROPS = {
         "design_ref": "DESIGN.md section 6 (C16), section 5 (E3)",
         "level_note": _LEVEL_NOTE,
     },
+    "C19": {
+        "id": "C19",
+        "engine": e6_order,
+        "quick": _budget(48, 200, 60),
+        "thorough": _budget(480, 400, 600),
+        "technique": "deterministic simulation: seeded digraphs and call histories with every set "
+                     "iteration order (vertex set, successor sets, backtracking frontier) chosen by "
+                     "the simulator, results compared with permutation filtering",
+        "level_text": "The enumeration order inside toposort_all/toposort is hash-order dependent "
+                      "in a real process; the simulator owns that order, draws it per call and "
+                      "checks the multiset of orderings against an independent enumeration, plus "
+                      "that the caller's graph survives a history of calls. Exploration with "
+                      "shrinking replay files.",
+        "design_ref": "DESIGN.md section 6 (C19), section 5 (E6)",
+        "level_note": _LEVEL_NOTE,
+    },
+    "C20": {
+        "id": "C20",
+        "engine": e6_order,
+        "quick": _budget(48, 120, 60),
+        "thorough": _budget(480, 300, 600),
+        "technique": "deterministic simulation: seeded union/find/binary histories against a "
+                     "partition model, and triple decomposition / supertree reconstruction under "
+                     "simulator-chosen set pop and iteration orders against an enumeration of all "
+                     "binary trees",
+        "level_text": "Union histories (find mutates by path compression) are checked operation by "
+                      "operation against a partition model; BreakUp's set.pop() order and the "
+                      "list(set) orders feeding OneTree/AllTrees are simulator decisions, and the "
+                      "results are compared with brute-force enumeration of binary trees. "
+                      "Exploration with shrinking replay files.",
+        "design_ref": "DESIGN.md section 6 (C20), section 5 (E6)",
+        "level_note": _LEVEL_NOTE,
+    },
 }
 
 NOT_APPLICABLE = {
@@ -59,4 +92,6 @@ PENDING = {
 ENGINES = [
     {"name": "E3-dp-entry", "path": "sim/e3_entry.py", "serves_properties": ["C16"],
      "kind_free_text": "history machine over Entry/Table cells with list-of-offers oracle"},
+    {"name": "E6-order-util", "path": "sim/e6_order.py", "serves_properties": ["C19", "C20"],
+     "kind_free_text": "toposort / DisjointSet / triples / supertrees under simulator-owned set orders"},
 ]
